@@ -24,9 +24,11 @@ import (
 // (that atomicity is C01's business).
 
 type verifDurable struct {
-	rows [][]int  // flushed entry sets, one per commit
-	seqs []int64  // sequence stored with each commit (leader 1)
-	acks []int64  // acknowledgements handed to the log
+	rows  [][]int // flushed entry sets, one per commit
+	seqs  []int64 // sequence stored with each commit (leader 1)
+	seqs2 []int64 // sequence stored with each commit (leader 2)
+	acks2 []int64
+	acks  []int64 // acknowledgements handed to the log
 }
 
 type verifMemDB struct {
@@ -81,6 +83,11 @@ func (f *verifKVFlusher) Commit() error {
 		s = -1
 	}
 	f.out.seqs = append(f.out.seqs, s)
+	s2, ok := f.seqs[2]
+	if !ok {
+		s2 = -1
+	}
+	f.out.seqs2 = append(f.out.seqs2, s2)
 	return nil
 }
 func (f *verifKVFlusher) Release() {}
@@ -149,6 +156,18 @@ func verifReopenFamily(out *verifDurable, stored int64) *dataFamily {
 	seqs := map[int32]int64{}
 	if stored >= 0 {
 		seqs[1] = stored
+	}
+	fam := &verifReopenedKVFamily{verifKVFamily: verifKVFamily{out: out}, seqs: seqs}
+	df := newDataFamily(verifShard{}, nil, timeutil.Interval(10000), timeutil.TimeRange{Start: 0, End: 3600000 - 1}, 0, fam)
+	return df.(*dataFamily)
+}
+
+func verifReopenFamily2(out *verifDurable, stored []int64) *dataFamily {
+	seqs := map[int32]int64{}
+	for i, s := range stored {
+		if s >= 0 {
+			seqs[int32(i+1)] = s
+		}
 	}
 	fam := &verifReopenedKVFamily{verifKVFamily: verifKVFamily{out: out}, seqs: seqs}
 	df := newDataFamily(verifShard{}, nil, timeutil.Interval(10000), timeutil.TimeRange{Start: 0, End: 3600000 - 1}, 0, fam)
@@ -244,4 +263,70 @@ func verifC07Reach() {
 	_ = f.Flush()
 	verifObserve("flush", s, len(out.rows), out.seqs[0])
 	verifAssert(s != 42, "reach")
+}
+
+// thorough: two leaders replicate into the family side by side (each with its own sequence) while
+// the flush thread flushes twice. Per leader the same guarantees as above.
+func verifC07TwoLeaders3() { verifC07TwoLeaders() } // same, pre-emption bound 3, time-boxed
+
+func verifC07TwoLeaders() {
+	out := &verifDurable{}
+	f := verifNewFamily(out)
+	f.AckSequence(1, func(s int64) { out.acks = append(out.acks, s) })
+	f.AckSequence(2, func(s int64) { out.acks2 = append(out.acks2, s) })
+	const k = 2
+	for l := int32(1); l <= 2; l++ {
+		leader := l
+		verifSpawn(func() {
+			for s := 0; s < k; s++ {
+				if f.ValidateSequence(leader, int64(s)) {
+					r := &metric.StorageRow{}
+					verifRowEntry[r] = int(leader)*10 + s
+					_ = f.WriteRows([]*metric.StorageRow{r})
+					f.CommitSequence(leader, int64(s))
+				}
+			}
+		})
+	}
+	verifSpawn(func() {
+		_ = f.Flush()
+		_ = f.Flush()
+	})
+	verifJoinAll()
+	_ = f.Flush()
+	var durable []int
+	stored := []int64{-1, -1}
+	for i := range out.rows {
+		durable = append(durable, out.rows[i]...)
+		if out.seqs[i] > stored[0] {
+			stored[0] = out.seqs[i]
+		}
+		if out.seqs2[i] > stored[1] {
+			stored[1] = out.seqs2[i]
+		}
+		for l := 0; l < 2; l++ {
+			for s := 0; s < k; s++ {
+				if int64(s) <= stored[l] {
+					verifAssert(verifContains(durable, (l+1)*10+s), "two leaders: every entry at or below the sequence stored with the flushed data is contained in flushed data")
+				}
+			}
+		}
+	}
+	for _, a := range out.acks {
+		verifAssert(a <= stored[0], "two leaders: the log of leader 1 is never acknowledged beyond its stored sequence")
+	}
+	for _, a := range out.acks2 {
+		verifAssert(a <= stored[1], "two leaders: the log of leader 2 is never acknowledged beyond its stored sequence")
+	}
+	// (not asserted: that the last sequences are stored - a flush with an empty memory database
+	// stores nothing, an entry whose sequence was committed after the flush captured the
+	// sequences is flushed but replayed after a restart; the property allows that)
+	f2 := verifReopenFamily2(out, stored)
+	for l := int32(1); l <= 2; l++ {
+		if stored[l-1] >= 0 {
+			verifAssert(!f2.ValidateSequence(l, stored[l-1]), "two leaders: an entry at the stored sequence is never applied again")
+		}
+		verifAssert(f2.ValidateSequence(l, stored[l-1]+1), "two leaders: the entry after the stored sequence is applied")
+	}
+	verifReach("end")
 }
